@@ -452,7 +452,7 @@ func C14(t Tier) int {
 		// demonstrate against the real chain: signature made over ta's transaction, attached to tb's transaction
 		swap := c14Swap(w, c.mode, ta.msg, tb.msg, e)
 		run.Add(report.Viol{Kind: "signbytes-collision", Sig: sig,
-			Msg: fmt.Sprintf("under %s a %s and a %s that differ in type/fields share their sign bytes; delivering the second with a signature collected for the first: %s", c.mode, ta.typ, tb.typ, swap),
+			Msg:    fmt.Sprintf("under %s a %s and a %s that differ in type/fields share their sign bytes; delivering the second with a signature collected for the first: %s", c.mode, ta.typ, tb.typ, swap),
 			Replay: map[string]any{"check": "C14", "mode": c.mode.String(), "first": fmt.Sprintf("%s %v", ta.typ, ta.msg), "second": fmt.Sprintf("%s %v", tb.typ, tb.msg)}})
 	}
 	// swap delivery for every ordered pair of types (representatives signed by A): must be refused
